@@ -27,7 +27,10 @@ ASSUMPTIONS = ['dict keys are unique (Python dict); Asset objects are not shared
 def gen_cases(ctx, n):
     cases = []
     for i in range(n):
-        cases.append({'ops': G.rand_program(ctx.rng, ctx.rng.randint(3, 12))})
+        if ctx.rng.random() < 0.2:
+            cases.append({'ops': G.cancel_program(ctx.rng)})
+        else:
+            cases.append({'ops': G.rand_program(ctx.rng, ctx.rng.randint(3, 12))})
     return cases
 
 
